@@ -3,7 +3,7 @@
     of the reader, as an arbitrary schedule dictates, and the kernel may return any non-empty part of what is available. *)
 From Coq Require Import ZArith NArith List Bool Arith.
 Import ListNotations.
-From PV Require Import Transport.Model Transport.Proofs.
+From PV Require Import Transport.Model Transport.Proofs Transport.Popen Transport.PopenProofs.
 
 (** One pty read_nonblocking call, for every schedule, size and timeout mode: what it returns is taken from the front of
     what the kernel holds (initial buffer ++ what the peer wrote meanwhile), at most [size] bytes; EOF is raised only when
@@ -29,6 +29,39 @@ Print Assumptions C06_reads_conserve.
 Theorem C06_gone_is_final : forall acts k, gone k -> gone (peer k acts) /\ kbuf (peer k acts) = kbuf k.
 Proof. exact peer_gone. Qed.
 Print Assumptions C06_gone_is_final.
+
+(** PopenSpawn: a reader thread moves the pipe into a queue, read_nonblocking drains the queue into a carry-over buffer.
+    For every interleaving of the peer (writes, exit, hang-up), of the thread's steps (one os.read + put each) and of the
+    iterations of the reader's loop, with the timeout expiring anywhere: one call returns at most size bytes, and what it
+    returns followed by what is still undelivered (carry-over buffer, queue, pipe - in that order) is what was undelivered
+    plus what the peer wrote meanwhile; the loop always terminates; EOF is raised only when buffer, queue and pipe are
+    empty and the pipe is closed; it never reports a timeout (it returns the empty string instead). *)
+Theorem C06_popen_read : forall w s size, PInv w ->
+  match popen_read w s size with (ok, r, w', s') =>
+    ok = true /\ PInv w' /\ data_of r ++ pending w' = pending w ++ read_written w s size /\ length (data_of r) <= size /\
+    (r = REof -> pending w = [] /\ kopen (pk w) = false /\ w' = w) /\ r <> RTimeout /\ r <> RBlocked
+  end.
+Proof. exact popen_read_ok. Qed.
+Print Assumptions C06_popen_read.
+
+(** any sequence of PopenSpawn reads with anything happening in between conserves the stream; the invariant holds from
+    a fresh object on; once EOF has been raised every later call raises it again *)
+Theorem C06_popen_reads_conserve : forall ops w, PInv w ->
+  match prun ops w with (rs, wr, w') => PInv w' /\ flat_map data_of rs ++ pending w' = pending w ++ wr end.
+Proof. exact popen_reads_conserve. Qed.
+Print Assumptions C06_popen_reads_conserve.
+Theorem C06_popen_fresh : PInv pw0.
+Proof. exact pw0_inv. Qed.
+Theorem C06_popen_eof_sticky : forall w s size ok w' s' s2 size2, popen_read w s size = (ok, REof, w', s') ->
+  popen_read w' s2 size2 = (true, REof, w', s2).
+Proof. exact popen_eof_sticky. Qed.
+Print Assumptions C06_popen_eof_sticky.
+
+(** a by-product: the branch of read_nonblocking "EOF already reached but the carry-over buffer is not empty" is never
+    taken - in every reachable state, once the end-of-file marker has been consumed the carry-over buffer is empty *)
+Theorem C06_popen_eof_means_drained : forall w s size, PInv2 w -> match popen_read w s size with (_, _, w', _) => PInv2 w' end.
+Proof. exact popen_read_inv2. Qed.
+Print Assumptions C06_popen_eof_means_drained.
 
 (** non-vacuity / the schedule that used to lose data: wait expires, child writes, child exits - the data is delivered *)
 Example C06_last_words :
